@@ -75,11 +75,14 @@ def run_seed(seed, confirm, extra_props, tier):
         props = [meta.get("breaks_property", seed.split("-")[0])] + [p for p in extra_props if p]
         det = meta.get("detection") if isinstance(meta.get("detection"), dict) else {}
         for p in dict.fromkeys(props):
+            os.makedirs("/var/tmp/seed-evidence-%s" % seed, exist_ok=True)
             env = dict(ENV, VERIF_REPO=wt, VERIF_EVIDENCE_DIR="/var/tmp/seed-evidence-%s" % seed)
             t0 = time.time()
             rc, out = sh("./check %s %s" % (p, tier), cwd="/verif", env=env, timeout=7200)
             lines = out.splitlines()
             first = next((l for l in lines if l.startswith(("VIOLATION", "UNDECIDED"))), "")
+            if rc == 1 and not first.startswith("VIOLATION"):
+                rc = 3  # the driver itself failed (traceback): neither detected nor passed
             obl = [l.strip() for l in lines if ("failed obligation" in l or "FAILED" in l) and "canary" not in l][:4]
             det[p] = {"rc": str(rc), "line": first, "obligation": " ;; ".join(obl)[:600], "tier": tier, "seconds": int(time.time() - t0),
                       "verif_commit": subprocess.run(["git", "-C", "/verif", "rev-parse", "--short", "HEAD"], capture_output=True, text=True).stdout.strip()}
